@@ -131,7 +131,7 @@ func checkC13(c *Ctx) {
 					continue
 				}
 				n++
-				if !strings.HasPrefix(pv, use.Params[1].Name()+".PrivateData") {
+				if !strings.HasPrefix(pv, pname(use.Params[1])+".PrivateData") {
 					okBound = false
 				}
 			}
